@@ -7,7 +7,7 @@ cd /verif
 PAT=${1:-*}
 git -C /repo status --short | grep -q . && { echo "/repo is dirty"; exit 2; }
 SAVE=$(mktemp -d /tmp/replayseeds.XXXXXX); cp -a evidence "$SAVE/evidence"; cp -a replays "$SAVE/replays" 2>/dev/null
-trap 'git -C /repo checkout -- .; rm -rf /verif/evidence /verif/replays; cp -a "$SAVE/evidence" /verif/evidence; [ -d "$SAVE/replays" ] && cp -a "$SAVE/replays" /verif/replays; rm -rf "$SAVE"; for g in constants sites partial api; do python3 /verif/gen/$g.py; done' EXIT
+trap 'git -C /repo checkout -- .; rm -rf /verif/evidence /verif/replays; cp -a "$SAVE/evidence" /verif/evidence; [ -d "$SAVE/replays" ] && cp -a "$SAVE/replays" /verif/replays; rm -rf "$SAVE"; for g in constants sites partial api alts; do python3 /verif/gen/$g.py; done' EXIT
 miss=0; n=0
 for d in seeded/$PAT/; do
   name=$(basename "$d")
